@@ -10,6 +10,7 @@ import (
 	"fmt"
 	"io"
 	"net/http"
+	"strings"
 	"sync"
 	"testing"
 
@@ -45,15 +46,41 @@ type Script struct {
 	Hint        int         `json:"hint"`
 	Boundaries  []Boundary  `json:"boundaries"`
 	WrongDigest bool        `json:"wrong_digest"`
+	// FailReq: the n-th data-carrying request (PATCH or PUT) of the caller's client fails before it is
+	// sent (a transient transport fault); the caller repeats the call that failed. 0 = none. Only used
+	// when the caller talks to exactly one client (no unifier above it).
+	FailReq int `json:"fail_req,omitempty"`
 }
+
+var errTransient = errors.New("injected transient transport fault (nothing was sent)")
 
 type tap struct {
-	rt  http.RoundTripper
-	mu  sync.Mutex
-	log []string
+	rt     http.RoundTripper
+	mu     sync.Mutex
+	log    []string
+	failAt int // fail the n-th PATCH/PUT (counted while armed) before sending it
+	nData  int
+	armed  bool // only the main upload's Write / Close / Commit calls are subject to the fault
 }
 
+func (t *tap) arm(on bool) { t.mu.Lock(); t.armed = on; t.mu.Unlock() }
+
 func (t *tap) RoundTrip(req *http.Request) (*http.Response, error) {
+	if req.Method == "PATCH" || req.Method == "PUT" {
+		t.mu.Lock()
+		inject := false
+		if t.armed {
+			t.nData++
+			inject = t.failAt > 0 && t.nData == t.failAt
+		}
+		t.mu.Unlock()
+		if inject {
+			if req.Body != nil {
+				req.Body.Close()
+			}
+			return nil, errTransient
+		}
+	}
 	resp, err := t.rt.RoundTrip(req)
 	t.mu.Lock()
 	if err != nil {
@@ -91,6 +118,12 @@ func run(s Script, v *vt.V) {
 		return
 	}
 	defer built.Close()
+	faultable := s.FailReq > 0 && len(taps) == 1 && !strings.Contains(s.Stack.Shape(), "unify")
+	arm := func(on bool) {}
+	if faultable {
+		taps[0].failAt = s.FailReq
+		arm = taps[0].arm
+	}
 	reg := built.Top
 	content := s.Content.Bytes()
 	dg := digest.FromBytes(content)
@@ -151,7 +184,14 @@ func run(s Script, v *vt.V) {
 			}
 			v.Class("late-close-of-refused-writer")
 		}
+		arm(true)
 		k, err := w.Write(content[written : written+n])
+		if err != nil && k == 0 && errors.Is(err, errTransient) {
+			// nothing of this Write was accepted and nothing was sent: the caller tries again
+			v.Class("transient-fault-retried")
+			k, err = w.Write(content[written : written+n])
+		}
+		arm(false)
 		if err != nil || k != n {
 			fail(oneByteSig(written, n), "Write #%d of %d bytes at offset %d: n=%d err=%v", i, n, written, k, err)
 			return
@@ -166,7 +206,8 @@ func run(s Script, v *vt.V) {
 			continue
 		}
 		id := w.ID()
-		if err := w.Close(); err != nil {
+		err = w.Close() // (a Close that fails is final for that handle: not subject to the transient fault)
+		if err != nil {
 			fail(oneByteSig(0, written), "Close before resume at %d: %v", written, err)
 			return
 		}
@@ -306,7 +347,13 @@ func run(s Script, v *vt.V) {
 			}
 		}
 	} else {
+		arm(true)
 		desc, err := w.Commit(dg)
+		if err != nil && errors.Is(err, errTransient) {
+			v.Class("transient-fault-retried")
+			desc, err = w.Commit(dg)
+		}
+		arm(false)
 		if err != nil {
 			fail(oneByteSig(0, written), "Commit with the right digest: %v", err)
 			return
@@ -405,13 +452,16 @@ func genScript(t *rapid.T) Script {
 		}
 	}
 	s.WrongDigest = rapid.IntRange(0, 5).Draw(t, "wrongDigest") == 0
+	if !s.WrongDigest && rapid.IntRange(0, 3).Draw(t, "transientFault") == 0 {
+		s.FailReq = rapid.IntRange(1, 4).Draw(t, "failReq")
+	}
 	return s
 }
 
 var prop = &vt.Prop[Script]{
 	ID:   "C04",
 	Name: "ChunkedUpload",
-	Rule: "content lengths {0,1,2,3, c-1,c,c+1, 2c-1,2c,2c+1, 3c+2 (c=8192); thorough also around 64 KiB} and small; partition into <=6 Write calls (sizes incl. 0, 1, c-1..c+1, larger than the content); chunk hint {-1,0,1,100,8191,8192,8193,20000}; any subset of write boundaries closed+resumed with explicit offset or -1 (-1 with exactly one byte received excluded as stated); optional probe at size+delta with junk data that must be refused with ErrRangeInvalid (416 on every hop) and leave the upload unaltered, also when a second handle is opened on the session (at -1 or at the right offset) between opening the wrong-offset writer and its first Write, and when the refused writer is closed only once the upload has reached the offset it aimed at; right/wrong commit digest; stacks {mem, 1 hop, 2 hops, unify(mem,mem) both policies, http over unify, unify over http, debug+http(NoSinglePost)+debug}; oracle = Size() after every step, commit descriptor, bytes read back from the top and from every member registry; non-trivial = >=1 resume, >=2 writes or length <= 2; distinct = whole script",
+	Rule: "content lengths {0,1,2,3, c-1,c,c+1, 2c-1,2c,2c+1, 3c+2 (c=8192); thorough also around 64 KiB} and small; partition into <=6 Write calls (sizes incl. 0, 1, c-1..c+1, larger than the content); chunk hint {-1,0,1,100,8191,8192,8193,20000}; any subset of write boundaries closed+resumed with explicit offset or -1 (-1 with exactly one byte received excluded as stated); optional probe at size+delta with junk data that must be refused with ErrRangeInvalid (416 on every hop) and leave the upload unaltered, also when a second handle is opened on the session (at -1 or at the right offset) between opening the wrong-offset writer and its first Write, and when the refused writer is closed only once the upload has reached the offset it aimed at; right/wrong commit digest; optionally the n-th data-carrying request of the caller's client fails before it is sent and the caller repeats the failed Write / Commit (nothing buffered may get lost); stacks {mem, 1 hop, 2 hops, unify(mem,mem) both policies, http over unify, unify over http, debug+http(NoSinglePost)+debug}; oracle = Size() after every step, commit descriptor, bytes read back from the top and from every member registry; non-trivial = >=1 resume, >=2 writes or length <= 2; distinct = whole script",
 	Gen:  genScript,
 	Run:  run,
 }
